@@ -396,6 +396,75 @@ pub fn universe(mapping: &[u8], rng: &mut Rng, cfg: &UniCfg) -> Vec<Query> {
             q.push(Query::TraceText(format!("{}{}: msg{}\n{}{}{}\n", ws, exc, ws, ws, f0, ws)));
         }
         q.push(Query::TraceText(f0.replace("SourceFile", "R8$$SyntheticClass")));
+        // numerals around 2^64 (and other odd numerals) as the line of a frame
+        for num in ["18446744073709551615", "18446744073709551616", "18446744073709551617", "18446744073709551619", "99999999999999999999", "340282366920938463463374607431768211456", "00000000000000000001", "+1", "1e3", "\u{661}"] {
+            if let Some(colon) = f0.rfind(':') {
+                q.push(Query::TraceText(format!("{}:{})\n", &f0[..colon], num)));
+                q.push(Query::TraceTyped(format!("{}:{})\n", &f0[..colon], num)));
+            }
+        }
+        // parentheses, colons and dots in unusual places
+        for line in [f0.replace("(", "(x)("), f0.replace("(", "()("), f0.replace(")", "))"), f0.replace(".", ".."), f0.replace(":", "::"), f0.replace("at ", "at at ")] {
+            q.push(Query::TraceText(format!("{}\n", line)));
+            q.push(Query::TraceTyped(format!("{}\n", line)));
+        }
+        // a long trace (> 8 KiB, > 128 frames) whose first line and several frame lines occur again later,
+        // with frames that differ only in their file
+        {
+            let mut long = format!("{}: first\n", known);
+            for i in 0..150 {
+                long.push_str(&f0.replace("SourceFile", if i % 3 == 0 { "Other.java" } else { "SourceFile" }));
+                long.push('\n');
+                if i % 40 == 17 {
+                    long.push_str(&format!("{}: first\n", known));
+                }
+                if i % 50 == 3 {
+                    long.push_str(&format!("Caused by: {}: first\n", known));
+                }
+            }
+            long.push_str(&format!("{}: first\n", known));
+            q.push(Query::TraceText(long.clone()));
+            q.push(Query::TraceTyped(long.clone()));
+            q.push(Query::TraceText(format!("Caused by: {}: first\n{}", known, long)));
+        }
+        // seeded mutations of the base trace (delete / duplicate / swap lines, splice odd characters)
+        let base_lines: Vec<&str> = t.lines().collect();
+        for _ in 0..6 {
+            let mut ls: Vec<String> = base_lines.iter().map(|l| l.to_string()).collect();
+            for _ in 0..rng.range(1, 3) {
+                if ls.is_empty() {
+                    break;
+                }
+                let i = rng.usize_below(ls.len());
+                match rng.below(6) {
+                    0 => {
+                        ls.remove(i);
+                    }
+                    1 => {
+                        let l = ls[i].clone();
+                        ls.insert(i, l);
+                    }
+                    2 => {
+                        let j = rng.usize_below(ls.len());
+                        ls.swap(i, j);
+                    }
+                    3 => {
+                        let ins = *rng.pick(&["(", ")", ":", ".", " ", "\t", "\u{e9}", "\u{3000}", "at ", "Caused by: ", "$", "0"]);
+                        let pos = ls[i].char_indices().map(|(p, _)| p).nth(rng.usize_below(ls[i].chars().count().max(1))).unwrap_or(0);
+                        ls[i].insert_str(pos, ins);
+                    }
+                    4 => {
+                        let n = ls[i].chars().count();
+                        if n > 1 {
+                            let cut = ls[i].char_indices().map(|(p, _)| p).nth(rng.usize_below(n)).unwrap_or(0);
+                            ls[i].truncate(cut);
+                        }
+                    }
+                    _ => ls[i] = ls[i].replace("SourceFile", *rng.pick(&["", "R8$$SyntheticClass", "a:b", "\u{e9}.kt"])),
+                }
+            }
+            q.push(Query::TraceText(ls.join("\n")));
+        }
         q.push(Query::TraceText("not a trace at all\n\n  \u{e9}\u{e9}: x".into()));
         q.push(Query::TraceTyped(frame_texts.join("\n")));
         // signatures
@@ -409,6 +478,14 @@ pub fn universe(mapping: &[u8], rng: &mut Rng, cfg: &UniCfg) -> Vec<Query> {
             "".to_string(),
             format!("(L{})V", c0),
             "(\u{e9})\u{e9}".to_string(),
+            // unterminated object types ending in a multi-byte character, odd tails
+            format!("(L{}/\u{df})V", c0),
+            "(L\u{e9})V".to_string(),
+            "(L\u{e9}".to_string(),
+            format!("(L{};)L\u{e9}", c0),
+            format!("(L{};[)V", c0),
+            format!("(L{};)[", c0),
+            "(\u{1d49c})V".to_string(),
             // array dimension thresholds (the JVM allows 255)
             format!("({}I)V", "[".repeat(255)),
             format!("({}I){}L{};", "[".repeat(256), "[".repeat(300), c0),
